@@ -13,6 +13,7 @@ struct ShimPlan {
     int failErrno;
     int shortMode;         /* 0 none, -1 every write accepts only half (>=1 byte), k>0 only the k-th write is short; no error */
     int closeFailErrno;    /* != 0: fclose flushes, then reports this errno */
+    long failSeekCall;     /* k > 0: the k-th repositioning seek on the device fails with ESPIPE (a destination that accepts bytes but cannot seek: pipe, tty); -1: every one */
 };
 struct ShimStats { long writeCalls, bytesAccepted, opens, closes, seeks, injected; int devFd; };
 extern struct ShimPlan vf_plan;
